@@ -76,7 +76,7 @@ def try_blocks_kept(repo, chk, rule):
     n = 0
     bad = []
     for stmt, need in cat:
-        res = typecheck(fe, prelude + 'empty @is_you() { ' + stmt + ' write(9); }')
+        res = typecheck(fe, 'empty @is_you() { ' + stmt + ' write(9); }', prelude=prelude)
         n += 1
         if isinstance(res, tuple):
             bad.append((stmt, f'the catalogue program does not typecheck: {res[1]}: {res[2]}'))
